@@ -182,18 +182,20 @@ func jsonKindOf(v any) string {
 }
 
 // wrongTyped returns a non-null value of a JSON type the schema does not accept, or nil,false when every type is accepted.
-func wrongTyped(s map[string]any) (any, bool) {
+func wrongTyped(s map[string]any, rng *rand.Rand) (any, bool) {
+	// (values of another JSON type, in several sizes and shapes: one character, empty containers, negative, fractional)
+	pick := func(vs ...any) any { return vs[rng.Intn(len(vs))] }
 	switch s["k"] {
 	case "string", "datetime":
-		return json.Number("17"), true
+		return pick(json.Number("17"), json.Number("7"), json.Number("0"), json.Number("-1"), json.Number("1.5"), true, false, map[string]any{}, []any{}, []any{"x"}), true
 	case "int", "int32", "int64", "double", "float":
-		return "seventeen", true
+		return pick("seventeen", "7", "", true, map[string]any{}, []any{}, []any{json.Number("1")}), true
 	case "bool":
-		return "true", true
+		return pick("true", "", json.Number("1"), json.Number("0"), map[string]any{}, []any{}), true
 	case "array":
-		return map[string]any{"not": "an array"}, true
+		return pick(map[string]any{"not": "an array"}, map[string]any{}, "x", json.Number("3"), true), true
 	case "object":
-		return []any{"not", "an", "object"}, true
+		return pick([]any{"not", "an", "object"}, []any{}, "x", json.Number("3"), false), true
 	}
 	return nil, false
 }
@@ -250,11 +252,33 @@ func docsFor(s map[string]any, rng *rand.Rand, n int) []docCase {
 				delete(d, name)
 				out = append(out, docCase{doc: d, mut: "drop", prop: name})
 			}
-			if w, ok := wrongTyped(pm["s"].(map[string]any)); ok {
+			if w, ok := wrongTyped(pm["s"].(map[string]any), rng); ok {
 				d := copyMap(base)
 				d[name] = w
 				out = append(out, docCase{doc: d, mut: "swap", prop: name})
 			}
+		}
+	}
+	if d, _ := s["disc"].(string); s["k"] == "oneOf" && d != "" {
+		// a oneOf told apart by a discriminator: the discriminator property is a declared (string) property of every
+		// variant - a document that lacks it or gives it another JSON type is refused like any other such document
+		wrong := []any{json.Number("17"), json.Number("7"), json.Number("0"), json.Number("-1"), json.Number("1.5"), true, false, map[string]any{}, []any{}, []any{"x"}}
+		for i := 0; i <= len(wrong); i++ {
+			base, _ := sampleValue(s, rng, 0).(map[string]any)
+			if base == nil {
+				continue
+			}
+			if _, has := base[d]; !has {
+				continue
+			}
+			m := copyMap(base)
+			if i == 0 {
+				delete(m, d)
+				out = append(out, docCase{doc: m, mut: "drop-disc", prop: d})
+				continue
+			}
+			m[d] = wrong[i-1]
+			out = append(out, docCase{doc: m, mut: "swap-disc", prop: d})
 		}
 	}
 	return out
